@@ -654,7 +654,7 @@ pub fn run_parent(p: &dyn Prop, env: &Env) -> i32 {
     }
   }
   let maxpar: usize = std::env::var("VERIF_JOBS").ok().and_then(|s| s.parse().ok()).unwrap_or_else(|| std::thread::available_parallelism().map(|n| n.get()).unwrap_or(8)).max(1);
-  let watchdog = Duration::from_secs(std::env::var("VERIF_WORKER_TIMEOUT_S").ok().and_then(|s| s.parse().ok()).unwrap_or(env.tier.pick(1500, 6 * 3600)));
+  let watchdog = Duration::from_secs(std::env::var("VERIF_WORKER_TIMEOUT_S").ok().and_then(|s| s.parse().ok()).unwrap_or(env.tier.pick(300, 3 * 3600)));
   let mut merged = Out::new();
   run_regress(p, env, &mut merged);
 
